@@ -906,6 +906,9 @@ func evalPlaceholder(ctx context.Context, scope *ReferenceScope, expr parser.Pla
 			return nil, NewStatementReplaceValueNotSpecifiedError(expr)
 		}
 	}
+	if replace.outer != nil {
+		ctx = replace.outer
+	}
 	return Evaluate(ctx, scope, replace.Values[idx])
 }
 
